@@ -35,7 +35,7 @@ func init() {
 			"oj.Parse/Load/JSON/Marshal/Write and sen.Parse/ParseReader/String/Write on one goroutine (pool reuse confirmed by pointer identity through the verif hook, GC off): all ordered (poison, probe) pairs over a call catalogue " +
 			"(valid inputs, inputs invalid at every depth: open containers, open string, mid-escape, mid-number, mid-literal; aborted calls: panicking callback, failing reader, failing io.Writer; option variations: callback kinds, channel, NumConvMethod, OnlyOne, writer Options changed between calls, SEN + and token functions) " +
 			"and random histories of length 3-30; every call's result must equal the result of the same call on a fresh instance, earlier results must stay unchanged, and returned values must not alias the input buffer. " +
-			"non-trivial: a history of at least two calls whose first call is not a plain success on a valid input; distinct by digest of the history",
+			"the Reuse field is also switched on and off per call on one oj.Parser / gen.Parser (results of calls made without Reuse must never change), and MustWrite is called directly on oj.Writer / sen.Writer with a working and a failing io.Writer. non-trivial: a history of at least two calls whose first call is not a plain success on a valid input; distinct by digest of the history",
 		Assumptions: []string{
 			"with Reuse=true previously returned maps may change (documented) - the 'earlier result unchanged' clause is waived there",
 			"MustJSON / MustSEN / sen.Bytes / pretty.Writer.Encode document that the returned buffer is reused by the next call on that writer - waived on the same instance",
